@@ -294,3 +294,86 @@ def lock_dominates(fn, site):
     def _direct(s, site):
         return True
     return scan(fn['body'], False)
+
+
+def check_frozen_inputs(rep, prog, cg, roots, rule='STATICS.frozen-input'):
+    """a function-local static (const or not) on a generation path whose initialiser reads a parameter, a member of `this` or a
+    non-constant local: the value computed for the first caller is kept for every later caller and every other instance"""
+    rep.rule(rule, 'no function-local static reachable from the generation entry points is initialised from a parameter, a data '
+             'member or a non-constant local of the enclosing function: such an initialiser runs once, for the first caller, and its '
+             'value is then imposed on every other instance and thread (`static const double c = std::cos(aperture)`)')
+    keys = set(cg.reachable(roots)) | set(roots)
+    n = 0
+    for key in sorted(keys):
+        fn = prog.functions.get(key)
+        if fn is None or not fn.get('body'):
+            continue
+        consts = {}
+        for d in astu.walk(fn['body']):
+            if d['k'] == 'Decl':
+                for v in d['vars']:
+                    if v.get('dk') != 'static_local' and v.get('const') and 'init' in v and \
+                            astu.strip_casts(v['init']).get('k') in ('Num', 'Str', 'Bool', 'Chr'):
+                        consts[v.get('id')] = v
+        for d in astu.walk(fn['body']):
+            if d['k'] != 'Decl':
+                continue
+            for v in d['vars']:
+                if v.get('dk') != 'static_local' or 'init' not in v:
+                    continue
+                n += 1
+                inside = {id(x) for x in astu.walk(v['init'])}
+                outer = {p_.get('id') for p_ in fn['params']} | {p_.get('name') for p_ in fn['params']}
+                for x in astu.walk(fn['body']):
+                    if id(x) in inside:
+                        continue
+                    if x['k'] == 'Decl':
+                        outer |= {w.get('id') for w in x['vars']}
+                    elif x['k'] == 'ForRange' and isinstance(x.get('var'), dict):
+                        outer.add(x['var'].get('id'))
+                deps = []
+                for x in astu.walk(v['init']):
+                    if x['k'] == 'This':
+                        deps.append('this')
+                    elif x['k'] == 'Ref' and x.get('dk') in ('param', 'local') and x.get('id') in outer and x.get('id') not in consts:
+                        if x.get('dk') == 'param' and _same_constant_everywhere(prog, cg, key, x.get('name'), 0):
+                            continue
+                        deps.append(x.get('name'))
+                rep.add(rule, '%s:%s' % (fn['name'], v['name']), where(fn, v.get('l')),
+                        '%s: static `%s` is initialised from constants only' % (fn['qn'].split('::', 1)[-1], v['name']), not deps,
+                        None if not deps else ['the initialiser reads %s: the first call fixes the value for the whole process'
+                                               % ', '.join(sorted(set(deps)))], nontrivial=bool(deps) or True)
+    return n
+
+
+def _same_constant_everywhere(prog, cg, key, pname, depth, want=None):
+    """every call site in the project passes one and the same literal for parameter `pname` of function `key` (a caller that
+    forwards its own parameter is followed, three levels deep).  Returns the literal's source text, or None."""
+    fn = prog.functions[key]
+    pos = [i for i, p in enumerate(fn['params']) if p['name'] == pname]
+    if not pos or depth > 3:
+        return None
+    pos = pos[0]
+    vals = set()
+    for ck in cg.callers.get(key, set()):
+        caller = prog.functions[ck]
+        for c in astu.calls(caller['body']):
+            if (c['callee']['qn'], c['callee'].get('id')) != key and c['callee']['qn'] != key[0]:
+                continue
+            if pos >= len(c.get('args', [])):
+                return None
+            a = astu.strip_casts(c['args'][pos])
+            while a['k'] in ('DefaultArg', 'Paren'):
+                a = astu.strip_casts(a['e'])
+            if a['k'] in ('Num', 'Bool', 'Str'):
+                vals.add(astu.src(a))
+            elif a['k'] == 'Ref' and a.get('dk') == 'param':
+                v = _same_constant_everywhere(prog, cg, ck, a['name'], depth + 1)
+                if v is None:
+                    return None
+                vals.add(v)
+            else:
+                return None
+    if len(vals) == 1:
+        return vals.pop()
+    return None
